@@ -17,8 +17,9 @@ import (
 
 // C11 – no externally supplied bytes can crash a station or registrar process.
 //
-// Fifteen driver stages (one per repository package that owns an external entry point, plus the
-// valid-tag flights against the connection handler and the bursts through the real ingest pipeline), each a
+// Sixteen driver stages (one per repository package that owns an external entry point, plus the
+// valid-tag flights against the connection handler, the bursts through the real ingest pipeline and the
+// cold-start stage that re-executes itself as fresh station processes), each a
 // child process running the seeded structure-aware generator against the real entry points with
 // per-case panic capture, a crash-surviving flight recorder and a per-input watchdog.  The stages are
 // independent processes, so this property runs them four at a time (from Post, each with a private
@@ -99,7 +100,7 @@ func init() {
 			"split at a cut / cross-transport identifier), sent to each WrapConnection and through handleNewTCPConn, and the stage is an ERROR unless every wrapping " +
 			"transport returned a registration at least once; burst: a case = one message (valid with a client_lib_version nobody used before, or malformed) written in " +
 			"bursts by four producers into the real HandleRegUpdates (default 300, 1, 16, 1000 workers) next to the stats print-and-reset, the expiry sweep and handler " +
-			"lookups; the API stage additionally sends raw-socket requests whose Content-Length / chunking / headers vary independently of the body; thorough additionally counts coverage-guided fuzz executions per target (fuzz_executions)",
+			"lookups; coldstart: a case = one registration (admissible with its transport's parameters, position j of every goroutine carrying the same transport; a share of hostile ones) pushed through parseRegMessage + ingestRegistration by one of 24 goroutines released from a barrier in a FRESH station process (72 processes, thorough 1500) whose first parses they are - the child process must survive; dns.MessageFromWireFormat additionally gets names made of compression pointers into every offset of the datagram incl. header fields that read as pointers / labels (cycles of length 1-3 through the header, loops in earlier RDATA); the API stage additionally sends raw-socket requests whose Content-Length / chunking / headers vary independently of the body; thorough additionally counts coverage-guided fuzz executions per target (fuzz_executions)",
 		Assumptions: []string{
 			"operator-supplied configuration is fixed and valid (test phantom subnets, override subnets with known prefix ids, a ConnectingStats sink): configuration-only panics are C19's subject",
 			"stand-ins: liveness stub, fake Redis, /dev/null as the tun device, loopback DTLS listener on a random port, DNS resolver that fails at once, recorder instead of the ZMQ socket; no MaxMind database exists here, so GeoIP lookups run against the empty database only",
